@@ -214,6 +214,105 @@ def make_h(kind, stasher_i):
 _obligations_d = obligations
 
 
+def make_o(chunk, nchunks):
+    """operator sweep: every operator of the registry x every accepted signature over the sample types (columns, literals, an
+    untyped None), executed in a one-verb pipeline on Polars and on SQLite; the two results are compared row by row"""
+    def run(carve):
+        import datetime
+        import math
+        import warnings
+
+        import polars as pl
+        import sqlalchemy as sqa
+
+        from .. import typeuniverse as TU
+        from . import c12
+
+        pdt = H.pdt
+        T = H.types_mod
+        cols = ["i64", "f64", "s", "b", "i64b", "f64b", "sb", "bb", "g", "d", "dt", "db", "dtb"]
+        df = c12.frames().select(cols).with_columns(f64=pl.Series([0.5, None, -0.25]), f64b=pl.Series([0.75, 1.0, None]), h=pl.Series([0, 1, 2]))  # h: unique key (total window / output order)
+        eng = sqa.create_engine("sqlite://")
+        df.write_database("t", eng)
+        tabs = (pdt.Table(df, name="t"), pdt.Table("t", pdt.SqlAlchemy(eng)))
+        # literals by position (ascending, so that bounds are ordered: clip(x, lower, upper))
+        lits = {"int": [1, 2, 3], "float": [0.25, 1.5, 2.5], "string": ["a", "b", "c"], "bool": [True, False, True], "date": [datetime.date(2019, 6, 1), datetime.date(2020, 1, 2), datetime.date(2022, 1, 1)],
+                "datetime": [datetime.datetime(2019, 6, 1), datetime.datetime(2020, 1, 2, 3, 4, 5), datetime.datetime(2022, 1, 1)]}
+
+        def mk_args(t, sig, variant):
+            args, used = [], {}
+            for pos, p in enumerate(sig):
+                fam = TU.family(p)
+                if T.is_const(p):
+                    if fam == "nulltype":
+                        args.append(None)
+                    elif fam in lits:
+                        args.append(lits[fam][min(pos, 2)])
+                    else:
+                        return None
+                else:
+                    names = c12.COLMAP.get(type(T.without_const(p)).__name__)
+                    if names is None or names[0] not in cols:
+                        return None
+                    k = used.get(names[0], 0)
+                    used[names[0]] = k + 1
+                    args.append(t[names[min(k, 1) if variant == 0 else 1 - min(k, 1)]])
+            return args
+
+        def norm(v):
+            if isinstance(v, bool) or v is None:
+                return v
+            if isinstance(v, (int, float)) or type(v).__name__ == "Decimal":
+                f = float(v)
+                return None if math.isnan(f) or math.isinf(f) else (0.0 if f == 0 else float(f"{f:.9e}"))  # non-finite results are outside the value domain (DESIGN.md section 4): compared as NULL
+            return v
+
+        n, bad = 0, []
+        ops_ = [(k, v) for k, v in H.ALL_OPS.items() if not isinstance(v, pdt._internal.ops.ops.markers.Marker) and k not in ("rand", "list_agg", "str_join")]
+        with warnings.catch_warnings():
+            warnings.simplefilter("ignore")
+            for opname, op in ops_[chunk::nchunks]:
+                for sig in c12.sig_universe(op):
+                    if len(sig) > 3:
+                        continue
+                    if opname in ("str_to_datetime", "str_to_date"):
+                        continue  # need well-formed date strings: C03/LIB-dt
+                    if opname == "str_slice" and (TU.is_null_typed(sig[2]) or not T.is_const(sig[2])):
+                        continue  # a null length is not documented (Polars: to the end, SQL: null)
+                    for variant in (0, 1):
+                        if variant == 1 and len(sig) < 2:
+                            continue
+                        res = []
+                        for t in tabs:
+                            args = mk_args(t, sig, variant)
+                            if args is None:
+                                break
+                            try:
+                                kw = {"arrange": [t.g, t.h.descending()]} if op.ftype == H.Ftype.WINDOW else {}
+                                e = H.ColFn(op, *args, **kw)
+                                tbl = (t >> pdt.group_by(t.g) >> pdt.summarize(r=e) >> pdt.arrange(pdt.C.g)) if op.ftype == H.Ftype.AGGREGATE else (t >> pdt.mutate(r=e) >> pdt.arrange(t.h))
+                                res.append(("ok", [norm(v) for v in (tbl >> pdt.export(pdt.Polars()))["r"].to_list()]))
+                            except (pdt.errors.NotSupportedError, pdt.errors.SubqueryError):
+                                res.append(("refused",))
+                            except (pdt.errors.DataTypeError, pdt.errors.FunctionTypeError, TypeError) as ex:
+                                res.append(("rejected", type(ex).__name__))
+                            except Exception as ex:  # noqa: BLE001
+                                res.append(("error", f"{type(ex).__name__}: {str(ex)[:100]}"))
+                        if len(res) < 2:
+                            continue
+                        n += 1
+                        lab = f"{opname}{c12._fmt(sig)} (sample columns variant {variant})"
+                        if res[0][0] == "error" or res[1][0] == "error":
+                            bad.append(f"{lab}: polars {res[0]}, sqlite {res[1]}")
+                        elif res[0][0] == "ok" and res[1][0] == "ok" and res[0][1] != res[1][1]:
+                            bad.append(f"{lab}: polars {res[0][1]}, sqlite {res[1][1]}")
+                        elif res[0][0] != res[1][0] and res[1][0] != "refused" and res[0][0] != "refused":
+                            bad.append(f"{lab}: polars {res[0]}, sqlite {res[1]}")
+        return _enum_outcome("every operator x accepted signature gives the same column on Polars and SQLite (or is refused by one of them with NotSupportedError)", n, bad, allow_empty=True)
+
+    return run
+
+
 def obligations(tier):  # noqa: F811
     obs = _obligations_d(tier)
     fns = obs[1].functions
@@ -233,6 +332,9 @@ def obligations(tier):  # noqa: F811
         for si in range(3):
             obs.append(Obligation(f"C01/H/{kind}/stasher{si}", "H", "references to hidden columns through an earlier table object (native differential)", make_h(kind, si), functions=fns,
                                   bounded=f"one column-hiding step >> every step V of the alphabet >> with / without alias(keep_col_refs=True) >> 3 uses of the hidden column; input `{kind}`"))
+    for ch in range(8):
+        obs.append(Obligation(f"C01/O/operator_sweep/{ch}", "O", "every operator x accepted signature in a one-verb pipeline: Polars vs SQLite, row by row", make_o(ch, 8), functions=fns[:2] + [H.fn_info(H.polars_backend.compile_col_expr), H.fn_info(H.sql_backend.SqlImpl.compile_col_expr)],
+                              bounded="all operators x signatures over 7 sample types (columns, positional literals, an untyped None; arity <= 3) x 2 column choices on one 3-row table; non-finite results compared as NULL"))
     for kind in ("mixed", "empty", "single", "tall"):
         for i, cx in enumerate(ctxs):
             for tl, tail in tails:
